@@ -6,8 +6,8 @@ import Demeter.GmxV1
 namespace Demeter.Gmx
 open Demeter Demeter.GmxV1
 
-theorem buyGlp_reject {cx : NumCtx} {env : Env} {s s' : State} {tok : String} {dec : Nat} {a : Rat} {e : Err}
-    (h : buyGlp cx env s tok dec a = (.error e, s')) : s' = s := by
+theorem buyGlp_reject {cx : NumCtx} {env : Env} {s s' : State} {tok : String} {dec : Nat} {a : Rat} {e : Err} {an : Bool}
+    (h : buyGlp cx env s tok dec a an = (.error e, s')) : s' = s := by
   unfold buyGlp at h
   split at h
   · cases h; rfl
@@ -36,8 +36,8 @@ theorem update_reject {cx : NumCtx} {env : Env} {s s' : State} {e : Err}
   · cases h; rfl
   · cases h
 
-theorem step_reject {cx : NumCtx} {env : Env} {s s' : State} {op : Op} {e : Err}
-    (h : step cx env s op = (.error e, s')) : s' = s := by
+theorem step_reject {cx : NumCtx} {env : Env} {s s' : State} {op : Op} {e : Err} {an : Bool}
+    (h : step cx env s op an = (.error e, s')) : s' = s := by
   cases op with
   | buy t d a => exact buyGlp_reject h
   | sell t d g => exact sellGlp_reject h
